@@ -260,16 +260,6 @@ free_range_harness!(c08_free_range_o3, 3, 4, 10);
 // @stub alloc::fmt::format -> String::new()
 free_range_harness!(c08_free_range_o4, 4, 4, 10);
 
-// @harness c08_free_range_o1
-// @props C08 C03
-// @tier thorough
-// @timeout 1500
-// @desc same at 2-bit refcounts (32 entries)
-// @bounds slice: 8 bytes arbitrary content; count 1..=2; start any; refcount_order 1 (concrete)
-// @funcs RefBlock::get_free_range RefBlock::get_tail_free_range RefBlock::__get RefBlock::entries
-// @stub alloc::fmt::format -> String::new()
-free_range_harness!(c08_free_range_o1, 1, 2, 34);
-
 // @harness c08_free_range_o5
 // @props C08 C03
 // @tier quick
